@@ -70,11 +70,15 @@ impl<BS: BlockSizes> BlockCipherEncClosure for Closure<'_, BS> {
 
         cbc_enc(cipher, &mut iv, blocks.reborrow());
 
-        if tail.is_empty() && blocks.len() > 1 {
-            let blocks = blocks.get_out();
-            let (last, rest) = blocks.split_last_mut().unwrap();
-            let (penultimate, _) = rest.split_last_mut().unwrap();
-            core::mem::swap(penultimate, last);
+        if tail.is_empty() {
+            // Nothing to steal: the last two blocks are exchanged,
+            // a single-block message is left as is.
+            if blocks.len() > 1 {
+                let blocks = blocks.get_out();
+                let (last, rest) = blocks.split_last_mut().unwrap();
+                let (penultimate, _) = rest.split_last_mut().unwrap();
+                core::mem::swap(penultimate, last);
+            }
         } else {
             let mut block = Block::<B>::default();
             block[..tail.len()].copy_from_slice(tail.get_in());
@@ -95,6 +99,12 @@ impl<BS: BlockSizes> BlockCipherDecClosure for Closure<'_, BS> {
         let Self { mut iv, buf } = self;
 
         let bs = B::BlockSize::USIZE;
+        if buf.len() == bs {
+            // A single-block message is plain CBC.
+            let (blocks, _) = buf.into_chunks();
+            cbc_dec(cipher, &mut iv, blocks);
+            return;
+        }
         let blocks_len = buf.len().div_ceil(bs);
         let main_blocks = blocks_len.saturating_sub(2);
 
